@@ -31,16 +31,35 @@ static inline void vstream__read(struct vstream *s, char *p, size_t n) {
   memcpy(p, s->buf + s->pos, n);
   s->pos += n;
 }
+/* array payloads are copied byte by byte: CBMC's memcpy with a symbolic length into a symbolic-size object is
+ * imprecise (spurious counterexamples were observed), a loop is exact and is bounded by the obligation's unwind */
+static inline void vstream__write_n(struct vstream *s, const char *p, size_t n) {
+#ifdef VSTREAM_WRITE_CONTRACT
+  vstream__write(s, p, n);
+#else
+  __CPROVER_assert(s->pos + n <= s->cap, "stream shim: write fits the buffer provided by the harness");
+  __CPROVER_assume(s->pos + n <= s->cap);
+  for (size_t i = 0; i < n; i++) s->buf[s->pos + i] = (uchar)p[i];
+  s->pos += n;
+#endif
+}
+static inline void vstream__read_n(struct vstream *s, char *p, size_t n) {
+  __CPROVER_assert(s->pos + n <= s->cap, "stream shim: read stays inside the image");
+  __CPROVER_assume(s->pos + n <= s->cap);
+  for (size_t i = 0; i < n; i++) p[i] = (char)s->buf[s->pos + i];
+  s->pos += n;
+}
+static inline bool vstream__good(struct vstream *s) { (void)s; return true; }
 static inline void vstream__seekg(struct vstream *s, size_t off, int whence) { (void)whence; s->pos = off; }
 #ifdef VSTREAM_NO_ARRAY_LOAD
 /* slice obligations that must return before any payload is read: array loads assert(0) */
 #define LOADARRAY(T, N) static inline T *loadValue__##N##__2(struct vstream *in, const size_t len) { __CPROVER_assert(0, "payload read reached in a slice that must return before it"); __CPROVER_assume(0); return 0; }
 #else
-#define LOADARRAY(T, N) static inline T *loadValue__##N##__2(struct vstream *in, const size_t len) { T *r = (T *)cxx_new_array(sizeof(T), len); vstream__read(in, (char *)r, len * sizeof(T)); return r; }
+#define LOADARRAY(T, N) static inline T *loadValue__##N##__2(struct vstream *in, const size_t len) { T *r = (T *)cxx_new_array(sizeof(T), len); vstream__read_n(in, (char *)r, len * sizeof(T)); return r; }
 #endif
 #define DEFINE_STREAM_OPS(T, N) \
   static inline void saveValue__##N##__2(struct vstream *out, const T val) { T v = val; vstream__write(out, (const char *)&v, sizeof(T)); } \
-  static inline void saveValue__##N##__3(struct vstream *out, const T *val, const size_t len) { vstream__write(out, (const char *)val, len * sizeof(T)); } \
+  static inline void saveValue__##N##__3(struct vstream *out, const T *val, const size_t len) { vstream__write_n(out, (const char *)val, len * sizeof(T)); } \
   static inline T loadValue__##N##__1(struct vstream *in) { T r; vstream__read(in, (char *)&r, sizeof(T)); return r; } \
   LOADARRAY(T, N)
 DEFINE_STREAM_OPS(uint32_t, uint32_t)
